@@ -1,7 +1,44 @@
-//! ChaikinMoneyFlow — reference model (TODO).
+//! ChaikinMoneyFlow. Doc: 1 value — `main` value in [-1, 1]; linked formula (Chaikin Analytics):
+//!   CMF = Σ_n (CLV · volume) / Σ_n volume over the last `size` candles,
+//!   CLV = ((close − low) − (high − close)) / (high − low).
+//! 1 signal: value goes above zero: full buy; goes below zero: full sell; otherwise none.
 use super::*;
 
-/// returns None until the reference is written
-pub fn make(_cfg: &Cfg, _c0: &RC) -> Option<Box<dyn IndRef>> {
-	None
+#[derive(Clone)]
+pub struct ChaikinMoneyFlow {
+	mfv: rm::Win,
+	vol: rm::Win,
+	vols: Ext,
+	x: CrossD,
+}
+
+pub fn make(cfg: &Cfg, c0: &RC) -> Option<Box<dyn IndRef>> {
+	let n = cfg.int("size");
+	// constant prehistory: every window slot holds the first candle's money flow volume / volume
+	let mfv0 = c0.clv() * Q::exact(c0.v);
+	// value of the prehistory: CLV of the first candle (undefined without volume); previous difference to zero
+	let prev = if c0.v == 0.0 { f64::NAN } else { c0.clv().v };
+	Some(Box::new(ChaikinMoneyFlow {
+		mfv: rm::Win::new_q(rm::WinKind::Integral, n, mfv0),
+		vol: rm::Win::new_q(rm::WinKind::Integral, n, Q::exact(c0.v)),
+		vols: Ext::new(n, c0.v),
+		x: CrossD::new(prev),
+	}))
+}
+
+impl IndRef for ChaikinMoneyFlow {
+	fn values(&mut self, c: &RC) -> Vec<Q> {
+		let num = self.mfv.step(c.clv() * Q::exact(c.v));
+		let den = self.vol.step(Q::exact(c.v));
+		self.vols.push(c.v);
+		// no volume at all in the window: 0 / 0
+		if self.vols.highest() == 0.0 && self.vols.lowest() == 0.0 {
+			return vec![Q::undefined()];
+		}
+		vec![num / den]
+	}
+	fn signals(&mut self, _c: &RC, own: &[f64]) -> Vec<Sig> {
+		vec![sig_sign(self.x.cross(own[0], 0.0))]
+	}
+	indref!(ChaikinMoneyFlow);
 }
